@@ -243,7 +243,13 @@ Ltac abstract_bools :=
   | |- context [forallb ?f ?l] => let b := fresh "b" in set (b := forallb f l) in *; clearbody b; destruct b
   | _ : context [forallb ?f ?l] |- _ => let b := fresh "b" in set (b := forallb f l) in *; clearbody b; destruct b
   end.
-Ltac arith := unfold pon_pli, MB_MAX_LEN16, jv_num_sgl_io_segs, jv_sgl_io_segs; norm_arith_goal; gen_enums_unfold_goal; relevant_only; abstract_pli; abstract_bools; lia.
+(* value-level conditionals (c ? a : b in the C, if-then-else in the catalogue) *)
+Ltac split_ifs :=
+  repeat match goal with
+  | |- context [if ?b then _ else _] => let E := fresh "E" in destruct b eqn:E
+  | _ : context [if ?b then _ else _] |- _ => let E := fresh "E" in destruct b eqn:E
+  end.
+Ltac arith := unfold pon_pli, pon_payload_len, MB_MAX_LEN16, jv_num_sgl_io_segs, jv_sgl_io_segs; norm_arith_goal; gen_enums_unfold_goal; relevant_only; abstract_pli; abstract_bools; split_ifs; lia.
 
 Ltac pick_rule :=
   first [ apply viol_here; [ reflexivity | cat; arith ]
